@@ -27,10 +27,9 @@ ASSUMPTIONS = [
     "a GETBULK response shorter than N+M*R is conformant and must be accepted; only len > N+M*R must be refused",
     "any SnmpError subclass counts as 'refused with SnmpError'",
 ]
-_REQUIRED_BASE = {"perturbed": 0.15, "absent": 0.10, "end_of_view": 0.05, "v1": 0.05, "v3": 0.05,
-                    "op=bulkget": 0.04, "op=multiset": 0.05}
+_REQUIRED_BASE = {"perturbed": 0.09, "absent": 0.06, "end_of_view": 0.03, "v1": 0.03, "v3": 0.03, "op=bulkget": 0.024, "op=multiset": 0.03}   # (60 % of the fractions first required: room for seed-to-seed variation)
 # generator health of the newer case families (quick tier: the thorough tier dilutes them with enumerated units)
-_REQUIRED_QUICK = {'bulk_response_cut_in_first_row': 0.005}
+_REQUIRED_QUICK = {"bulk_response_cut_in_first_row": 0.003}   # (60 % of the fractions first required: room for seed-to-seed variation)
 
 
 def REQUIRED_CLASSES(tier):
